@@ -16,3 +16,29 @@ Definition tcase_ok (c : tcase) : bool :=
     let es := flat_map (fun a => match a with AOk r => [r] | _ => [] end) rs in
     closeb (tc_rt c) (tc_at c * tc_at c) (total_dvalue_sq es (tc_covs c)) (tc_dvalue c * tc_dvalue c)
     && closeb (tc_rt c) (tc_at c * tc_at c) (total_ddvalue_sq es (tc_covs c)) (tc_ddvalue c * tc_ddvalue c).
+
+(* ------------------------------------------------------------------ C03: metamorphic pairs and parameter precedence *)
+From PV Require Import Obs.GammaInv.
+From Coq Require Import String.
+(* two analyses of the implementation that the property relates: b must equal a, with errors scaled by [factor] *)
+Record mcase := mkMCase { m_factor : Q; m_a : gimpl; m_b : gimpl; m_rt : Q; m_at : Q }.
+Definition mcase_ok (c : mcase) : bool :=
+  let a := m_a c in let b := m_b c in let f := m_factor c in
+  if gi_raised a || gi_raised b then Bool.eqb (gi_raised a) (gi_raised b)
+  else
+    Z.eqb (gi_W a) (gi_W b)
+    && closeb (m_rt c) (m_at c) (gi_tauint a) (gi_tauint b) && closeb (m_rt c) (m_at c) (gi_dtauint a) (gi_dtauint b)
+    && closeb (m_rt c) (m_at c * f) (f * gi_dvalue a) (gi_dvalue b) && closeb (m_rt c) (m_at c * f) (f * gi_ddvalue a) (gi_ddvalue b)
+    && close_list (m_rt c) (m_at c) (gi_rho a) (gi_rho b) && close_list (m_rt c) (m_at c) (gi_drho a) (gi_drho b)
+    && close_list (m_rt c) (m_at c) (gi_n_tauint a) (gi_n_tauint b) && close_list (m_rt c) (m_at c) (gi_n_dtauint a) (gi_n_dtauint b)
+    (* tau_int >= 1/2 and all reported errors non-negative *)
+    && Qleb (1 # 2) (gi_tauint a) && Qleb 0 (gi_dtauint a) && Qleb 0 (gi_dvalue a) && Qleb 0 (gi_ddvalue a)
+    && forallb (Qleb 0) (gi_drho a).
+
+(* parameter precedence after a history of changes to the global and per-ensemble parameters *)
+Record hcase := mkHCase { h_state0 : gstate; h_ops : list hop; h_args : option Q * option Q * option Q; h_ens : string;
+                          h_impl : params }.
+Definition params_eqb (a b : params) : bool := Qeqb (p_S a) (p_S b) && Qeqb (p_tau_exp a) (p_tau_exp b) && Qeqb (p_N_sigma a) (p_N_sigma b).
+Definition hcase_ok (c : hcase) : bool :=
+  match h_args c with (aS, atau, ans) =>
+    params_eqb (params_of (fold_left hstep (h_ops c) (h_state0 c)) aS atau ans (h_ens c)) (h_impl c) end.
